@@ -239,7 +239,7 @@ def replay(ctx):
     import json
     d = json.load(open(ctx.replay))
     case = d.get("case", {})
-    if isinstance(case, dict) and case.get("mode") == "lex" and "words" in case:
+    if isinstance(case, dict) and case.get("mode") == "lex" and ("words" in case or "layout" in case):
         return words.replay(ctx, case)
     if not isinstance(case, dict) or "text" not in case:
         print("replay file names no input:", json.dumps(d.get("broken", d), indent=1)[:3000])
